@@ -27,7 +27,9 @@ PROP = dict(
          "one call with others in between (A B A, A A, A ping A B A; events A B A for one id); (e) eout.reuse = a message list is "
          "converted, its message OBJECTS are overwritten in place with a second list (sub-messages such as SysStat, PanelInfo keep "
          "their addresses wherever both lists have one; lists with every section present) and the same pointers are converted again; "
-         "(f) payloads, message texts, names and list items of 201-6000 bytes; every record whose input or output carries a byte string "
+         "(f) payloads, message texts, names and list items of 201-6000 bytes; (g) payloads with ONE physical line of exactly 65535 / 65536 / "
+         "70000 bytes, alone and after a short first line, in the topology JSON + SVG, one of burn-in / calibration / default calibration "
+         "profile and one of Msg / ErrorMsg each, every payload field in one two-message call, the C binding, and one 300 000-byte line; every record whose input or output carries a byte string "
          "longer than 200 bytes (and every third other record) is executed a second time with DebugRWPhelpers on: a differing result "
          "is what the record reports. Every result of a multi-call record is judged like an eout.msgs record of its call (clause "
          "suffix @part<j>). non-trivial = at least one line produced; distinct = distinct record text",
